@@ -398,7 +398,7 @@ Proof.
   split; [apply Rfloor_unique|]. intros <-. apply Rfloor_spec.
 Qed.
 
-Ltac runfold := unfold half, two, one, zero; cbn [add sub mul div opp ofZ leb ltb eqb ROps fst snd].
+Ltac runfold := unfold half, two, one, zero; cbn [add sub mul div opp ofZ leb ltb eqb ROps fst snd]; cbn [T ROps].
 
 (* the position of a point in cell units, measured from the top / left edge of the mesh *)
 Definition cu_row (cg : @cellgeom ROps) (p : Rpt) : R := (g_top cg - fst p) / g_h cg.
@@ -893,3 +893,132 @@ Section UniqueAll.
     symmetry. apply HE; auto.
   Qed.
 End UniqueAll.
+
+(* ------------------------------------------------------------------ H. Delaunay interpolation weights *)
+Lemma absT_R x : @absT ROps x = Rabs x.
+Proof.
+  unfold absT. runfold. unfold Rabs. destruct (Rltb x 0) eqn:E; rbool; destruct (Rcase_abs x); lra.
+Qed.
+Notation crossR := (@cross ROps).
+Lemma tri_area_cross (a b c : Rpt) : @tri_area ROps a b c = Rabs (crossR a b c) / 2.
+Proof.
+  unfold tri_area, cross. rewrite absT_R. cbv zeta. runfold.
+  match goal with |- 1 / 2 * Rabs ?x = Rabs ?y / 2 => replace x with y by ring end. lra.
+Qed.
+Lemma cross_cyc (a b c : Rpt) : crossR a b c = crossR c a b.
+Proof. unfold cross. runfold. ring. Qed.
+Lemma cross_swap (a b c : Rpt) : crossR a c b = - crossR a b c.
+Proof. unfold cross. runfold. ring. Qed.
+Lemma cross_sum (v0 v1 v2 p : Rpt) : crossR p v1 v2 + crossR v0 p v2 + crossR v0 v1 p = crossR v0 v1 v2.
+Proof. unfold cross. runfold. ring. Qed.
+
+(* the three weights the code computes for a point p and a triangle (v0, v1, v2) *)
+Definition area_weights (v0 v1 v2 p : Rpt) : R * R * R :=
+  let a0 := @tri_area ROps v1 v2 p in let a1 := @tri_area ROps v0 v2 p in let a2 := @tri_area ROps v0 v1 p in
+  (a0 / (a0 + a1 + a2), a1 / (a0 + a1 + a2), a2 / (a0 + a1 + a2)).
+
+Lemma areas_as_cross (v0 v1 v2 p : Rpt) :
+  @tri_area ROps v1 v2 p = Rabs (crossR p v1 v2) / 2 /\ @tri_area ROps v0 v2 p = Rabs (crossR v0 p v2) / 2
+  /\ @tri_area ROps v0 v1 p = Rabs (crossR v0 v1 p) / 2.
+Proof.
+  rewrite !tri_area_cross. repeat split.
+  - rewrite (cross_cyc v1 v2 p). reflexivity.
+  - rewrite (cross_swap v0 v2 p), Rabs_Ropp. reflexivity.
+Qed.
+
+(* any point, non-degenerate triangle: the weights are non-negative and sum to one *)
+Theorem area_weights_sum (v0 v1 v2 p : Rpt) : crossR v0 v1 v2 <> 0 ->
+  let '(w0, w1, w2) := area_weights v0 v1 v2 p in 0 <= w0 /\ 0 <= w1 /\ 0 <= w2 /\ w0 + w1 + w2 = 1.
+Proof.
+  intros Hd. unfold area_weights. destruct (areas_as_cross v0 v1 v2 p) as [-> [-> ->]].
+  pose proof (cross_sum v0 v1 v2 p) as Hs.
+  set (s0 := crossR p v1 v2) in *. set (s1 := crossR v0 p v2) in *. set (s2 := crossR v0 v1 p) in *.
+  pose proof (Rabs_pos s0). pose proof (Rabs_pos s1). pose proof (Rabs_pos s2).
+  assert (Hn : 0 < Rabs s0 / 2 + Rabs s1 / 2 + Rabs s2 / 2).
+  { pose proof (Rabs_triang (s0 + s1) s2). pose proof (Rabs_triang s0 s1).
+    pose proof (Rabs_pos_lt _ Hd). rewrite <- Hs in H4. lra. }
+  repeat split; try (apply Rmult_le_pos; [lra | apply Rlt_le, Rinv_0_lt_compat; lra]).
+  field. lra.
+Qed.
+
+(* point inside the (closed) triangle: the weights are the barycentric coordinates *)
+Theorem area_weights_barycentric (v0 v1 v2 p : Rpt) : crossR v0 v1 v2 <> 0 ->
+  @in_triangle ROps v0 v1 v2 p = true -> area_weights v0 v1 v2 p = @bary ROps v0 v1 v2 p.
+Proof.
+  intros Hd Hin. unfold area_weights, bary. destruct (areas_as_cross v0 v1 v2 p) as [-> [-> ->]]. runfold.
+  pose proof (cross_sum v0 v1 v2 p) as Hs.
+  unfold in_triangle in Hin. revert Hin. runfold.
+  set (s0 := crossR p v1 v2) in *. set (s1 := crossR v0 p v2) in *. set (s2 := crossR v0 v1 p) in *.
+  set (d := crossR v0 v1 v2) in *. clearbody s0 s1 s2 d. cbn [T ROps] in *. subst d.
+  rewrite orb_true_iff, !andb_true_iff, !Rleb_true. intros [[[A B] C]|[[A B] C]].
+  - rewrite !Rabs_right by lra. f_equal; [f_equal|]; field; lra.
+  - rewrite !Rabs_left1 by lra. f_equal; [f_equal|]; field; lra.
+Qed.
+(* what barycentric coordinates are: they sum to one and reproduce the point *)
+Theorem bary_spec (v0 v1 v2 p : Rpt) : crossR v0 v1 v2 <> 0 ->
+  let '(b0, b1, b2) := @bary ROps v0 v1 v2 p in
+  b0 + b1 + b2 = 1 /\ b0 * fst v0 + b1 * fst v1 + b2 * fst v2 = fst p /\ b0 * snd v0 + b1 * snd v1 + b2 * snd v2 = snd p.
+Proof.
+  intros Hd. unfold bary. runfold. unfold cross in *. revert Hd. runfold. intros Hd.
+  repeat split; field; exact Hd.
+Qed.
+Theorem in_triangle_bary_nonneg (v0 v1 v2 p : Rpt) : crossR v0 v1 v2 <> 0 ->
+  (@in_triangle ROps v0 v1 v2 p = true <->
+   let '(b0, b1, b2) := @bary ROps v0 v1 v2 p in 0 <= b0 /\ 0 <= b1 /\ 0 <= b2).
+Proof.
+  intros Hd. unfold in_triangle, bary. runfold. pose proof (cross_sum v0 v1 v2 p) as Hs.
+  set (s0 := crossR p v1 v2) in *. set (s1 := crossR v0 p v2) in *. set (s2 := crossR v0 v1 p) in *.
+  set (d := crossR v0 v1 v2) in *.
+  rewrite orb_true_iff, !andb_true_iff, !Rleb_true.
+  assert (Q : forall s, (0 <= s / d <-> (0 < d /\ 0 <= s) \/ (d < 0 /\ s <= 0))).
+  { intros s. split.
+    - intros H. destruct (Rtotal_order d 0) as [L|[E|G]]; [right|contradiction|left]; split; auto.
+      + apply (Rmult_le_compat_neg_l d) in H; [|lra]. replace (d * (s / d)) with s in H by (field; lra). lra.
+      + apply (Rmult_le_compat_l d) in H; [|lra]. replace (d * (s / d)) with s in H by (field; lra). lra.
+    - intros [[A B]|[A B]].
+      + apply Rmult_le_pos; [lra|]. apply Rlt_le, Rinv_0_lt_compat; lra.
+      + replace (s / d) with ((- s) * / (- d)) by (field; lra). apply Rmult_le_pos; [lra|]. apply Rlt_le, Rinv_0_lt_compat; lra. }
+  rewrite !Q. split.
+  - intros [[[A B] C]|[[A B] C]].
+    + assert (0 < d) by (destruct (Rtotal_order d 0) as [L|[E|G]]; lra). lra.
+    + assert (d < 0) by (destruct (Rtotal_order d 0) as [L|[E|G]]; lra). lra.
+  - intros [A [B C]]. destruct (Rtotal_order d 0) as [L|[E|G]]; [right|contradiction|left]; lra.
+Qed.
+
+(* ---- np.argmin: first index of the minimum ---- *)
+Lemma argmin_from_spec (l : list R) : forall i best bv, (best < i)%nat ->
+  let r := @argmin_from ROps l i best bv in
+  ((r = best /\ Forall (fun v => bv <= v) l) \/
+   ((i <= r < i + length l)%nat /\ nth (r - i) l 0 < bv /\ Forall (fun v => nth (r - i) l 0 <= v) l
+    /\ forall k, (k < r - i)%nat -> nth (r - i) l 0 < nth k l 0)).
+Proof.
+  induction l as [|v l IH]; intros i best bv Hb; cbn [argmin_from].
+  - left. split; auto.
+  - cbn [ltb ROps]. destruct (Rltb v bv) eqn:E; rbool.
+    + destruct (IH (S i) i v ltac:(lia)) as [[Hr HF]|[Hr [Hlt [HF Hk]]]].
+      * right. rewrite Hr. replace (i - i)%nat with 0%nat by lia. cbn [nth length]. split; [lia|]. split; [exact E|].
+        split; [constructor; [lra | exact HF]|]. intros k Hk. lia.
+      * right. set (r := @argmin_from ROps l (S i) i v) in *. cbn [length].
+        replace (r - i)%nat with (S (r - S i)) by lia. cbn [nth]. split; [lia|]. split; [lra|].
+        split; [constructor; [lra | exact HF]|].
+        intros [|k] Hk'; cbn [nth]; [exact Hlt | apply Hk; lia].
+    + destruct (IH (S i) best bv ltac:(lia)) as [[Hr HF]|[Hr [Hlt [HF Hk]]]].
+      * left. split; [exact Hr|]. constructor; [lra | exact HF].
+      * right. set (r := @argmin_from ROps l (S i) best bv) in *. cbn [length].
+        replace (r - i)%nat with (S (r - S i)) by lia. cbn [nth]. split; [lia|]. split; [exact Hlt|].
+        split; [constructor; [lra | exact HF]|].
+        intros [|k] Hk'; cbn [nth]; [lra | apply Hk; lia].
+Qed.
+Theorem argmin_spec (l : list R) : l <> [] ->
+  let r := @argmin ROps l in
+  (r < length l)%nat /\ (forall k, (k < length l)%nat -> nth r l 0 <= nth k l 0) /\ (forall k, (k < r)%nat -> nth r l 0 < nth k l 0).
+Proof.
+  destruct l as [|v l]; [congruence|]. intros _. cbn [argmin].
+  destruct (argmin_from_spec l 1 0 v ltac:(lia)) as [[Hr HF]|[Hr [Hlt [HF Hk]]]].
+  - cbn zeta. rewrite Hr. cbn [nth length]. split; [lia|]. split; [|intros k Hk; lia].
+    intros [|k] Hk; cbn [nth]; [lra|]. rewrite Forall_forall in HF. apply HF, nth_In. cbn [length] in Hk. lia.
+  - cbn zeta. set (r := @argmin_from ROps l 1 0 v) in *. cbn [length].
+    destruct r as [|r]; [lia|]. replace (S r - 1)%nat with r in * by lia. cbn [nth]. split; [lia|]. split.
+    + intros [|k] Hk'; cbn [nth]; [lra|]. rewrite Forall_forall in HF. apply HF, nth_In. lia.
+    + intros [|k] Hk'; cbn [nth]; [exact Hlt | apply Hk; lia].
+Qed.
